@@ -617,7 +617,9 @@ var iter_type(var self);
     offsetof(struct Iter, iter_init), "iter_init"), \
   X = ((struct Iter*)(__Iter##X))->iter_init(__##X); \
   X isnt Terminal; \
-  X = ((struct Iter*)(__Iter##X))->iter_next(__##X, X))
+  X = ((struct Iter*)(__Iter##X))->iter_next \
+    ? ((struct Iter*)(__Iter##X))->iter_next(__##X, X) \
+    : iter_next(__##X, X))
 
 void push(var self, var obj);
 void pop(var self);
